@@ -4,8 +4,12 @@ CONSTANTS
   MaxSoma = 2
   NTypes = 2
   SEEDK = 0
+  CHAIN_ONLY = FALSE
+  FREE_SEG = FALSE
 INVARIANT EveryPointInExactlyOneSectionBody
 INVARIANT SectionsFormATree
 INVARIANT TypesPartition
+INVARIANT SplitRespectsTheBound
+INVARIANT SplitKeepsTheTracedLength
 CONSTRAINT Emit
 CHECK_DEADLOCK FALSE
